@@ -328,6 +328,8 @@ pub fn run(ctx: &Ctx) -> Report {
         }
     }
     sizes.push((33, 33));
+    // tall and wide pages (after seed C06-w7-1: y narrowed to 8 bits aliases rows >= 256): coordinates beyond 2^8 and 2^11 in either direction
+    sizes.extend([(1, 257), (2, 300), (1, 2049), (1, 4100), (257, 1), (300, 2), (2049, 1), (4100, 1), (17, 259)]);
     let jobs: Vec<(usize, u32, u32)> = sizes.iter().flat_map(|&(w, h)| (0..START_KINDS).map(move |k| (k, w, h))).collect();
     let accs = par_range(jobs.len() as u64, 1, Acc::default, |acc, i| {
         let (k, w, h) = jobs[i as usize];
